@@ -103,6 +103,16 @@ func genC11(w *bufio.Writer, tier string, rng *rand.Rand) {
 		n := 31 + rng.Intn(300)
 		emit(n, rng.Float64(), []float64{rng.Float64(), 0.5 + rng.Float64()/2, 1 - math.Exp(-rng.Float64()*12)})
 	}
+	// the exported package variable StdNormal reassigned (and restored) around ordinary calls in a fresh
+	// process: no quantile band depends on it
+	for h := 0; h < pick(tier, 10, 200); h++ {
+		fmt.Fprintf(w, "{{\nstdnormal %s %s\n", fmtF(float64(rng.Intn(9)-4)), fmtF(float64(1+rng.Intn(4))))
+		for i := 0; i < 4; i++ {
+			n := []int{5, 20, 31, 41, 100, 400, 1000}[rng.Intn(7)]
+			emit(n, []float64{0.5, 0.25, 0.9, rng.Float64()}[rng.Intn(4)], []float64{0.9, 0.95, 0.99, rng.Float64()})
+		}
+		fmt.Fprintf(w, "stdnormal %s %s\n}}\n", fmtF(0), fmtF(1))
+	}
 	// SampleCI
 	for k := 0; k < pick(tier, 1500, 40000); k++ {
 		n := 1 + rng.Intn(40)
